@@ -8,9 +8,10 @@ namespace PriorV
 def HasDim (env : List Param) (n : Name) (d : Dim) : Prop :=
   ∃ par, lookup env n = some par ∧ par.unit = some d
 
-/-- the entry under `n` is a Normal (or FixedCompanionMass) random variable -/
+/-- the entry under `n` is an independent Normal random variable (constant parameters) or — for `K` only, whose
+dependence on `P, e` the kernel implements — a FixedCompanionMass -/
 def IsNormal (env : List Param) (n : Name) : Prop :=
-  ∃ par, lookup env n = some par ∧ (par.kind = .normal ∨ par.kind = .fcm)
+  ∃ par, lookup env n = some par ∧ (par.kind = .normal ∨ (par.kind = .fcm ∧ n = .K))
 
 /-- the property's notion of a prior that satisfies the sampler's assumptions -/
 def WellFormed (i : PriorInput) : Prop :=
@@ -77,17 +78,35 @@ theorem checkLinear_ok_iff (env : List Param) : ∀ names : List Name,
     | none => simp [IsNormal, hl]
     | some par =>
       obtain ⟨nm, un, k⟩ := par
-      cases k <;> simp only [] <;>
-        first
-          | (rw [ih]
-             constructor
-             · intro h; exact ⟨⟨_, hl, by simp⟩, h⟩
-             · intro h; exact h.2)
-          | (constructor
-             · intro h; cases h
-             · rintro ⟨⟨par', hl', hk'⟩, _⟩
-               rw [hl] at hl'; cases hl'
-               rcases hk' with h | h <;> cases h)
+      cases k with
+      | normal =>
+        simp only []
+        rw [ih]
+        constructor
+        · intro h; exact ⟨⟨_, hl, by simp⟩, h⟩
+        · intro h; exact h.2
+      | fcm =>
+        simp only []
+        by_cases hK : n = .K
+        · rw [if_pos hK, ih]
+          constructor
+          · intro h; exact ⟨⟨_, hl, Or.inr ⟨rfl, hK⟩⟩, h⟩
+          · intro h; exact h.2
+        · rw [if_neg hK]
+          constructor
+          · intro h; cases h
+          · rintro ⟨⟨par', hl', hk'⟩, _⟩
+            rw [hl] at hl'; cases hl'
+            rcases hk' with h | ⟨_, h⟩
+            · cases h
+            · exact absurd h hK
+      | normalDep | otherRV | unnamedOp | noOwner | notTensor =>
+        simp only []
+        constructor
+        · intro h; cases h
+        · rintro ⟨⟨par', hl', hk'⟩, _⟩
+          rw [hl] at hl'; cases hl'
+          rcases hk' with h | ⟨h, _⟩ <;> cases h
 
 theorem validate_ok_iff (i : PriorInput) (names : List Name) :
     validate i = .ok names ↔ i.modelOk = true ∧ i.parsStatus = .ok ∧ ∃ p, i.polyTrend = some p ∧
